@@ -28,6 +28,39 @@ CHECKS.update({
     "C09": chain("Fork-heavy seeded histories with transactions across fork points, invalidateblock-driven disconnects and forced flushes between connect and disconnect; after every tip change the set read through a CCoinsViewDB cursor equals the model's UTXO(tip) coin-for-coin (value, script, height, coinbase flag).", "DESIGN.md §5 C09"),
 })
 
+COMP_TECH = "deterministic simulation: real component under a simulated clock / scripted faulty counterparties / simulated byte pipes, seeded operation+fault histories vs. lock-step reference model"
+CHECKS.update({
+    "C16": ("crashsim/chainstate", "fault_enumeration",
+            "Each run records one seeded on-disk workload (blocks with transactions, reorgs straddling flushes, forced/periodic flushes, clean restarts, tiny coins batches so DB_HEAD_BLOCKS transitions are dense) through the simulated file layer, "
+            "then cuts the I/O log at biased crash points (quick) or at EVERY I/O index of the workload (thorough, a third of the runs) under process-kill and power-loss semantics (suffix of unsynced operations dropped, torn tail) and starts a fresh node on each image: "
+            "start must succeed without reindex (VerifyDB level 4, all blocks), the coins DB after ReplayBlocks must equal the model's UTXO of a block whose connection had begun before the crash, the tip after reconnecting stored blocks must have at least the work of the last completed full flush, "
+            "and re-delivering all blocks must end in the model's state. fault_enumeration because crash points of a recorded workload are a finite space that the thorough tier enumerates completely, on top of seeded workloads.",
+            "Power-loss model as stated in the property (suffix of not-yet-synced operations lost; fsync of a file persists its earlier writes and its directory entry; rename/unlink persist with a directory fsync; tears at 512-byte boundaries of an unsynced append). Crash window starts after the data directory exists and the base chain is flushed (database creation is outside the property). "
+            "The node is kept in IBD mode so that the asynchronous utxocompact thread never starts; LevelDB's own background thread is real and unscheduled (probe io_from_background_thread reports when it wrote). Trusts RefChain.",
+            "deterministic simulation with fault injection: recorded file layer (link-time libc interposition), crash = log cut + directory rebuild + restart of the real node, oracle = reference chain model",
+            "DESIGN.md §4.2, §5 C16"),
+    "C32": ("compsim/transport", "exploration",
+            "Pairs of real V1/V2 transports (and scripted BIP324 peers) over simulated byte pipes; the simulator picks every chunk size and the interleaving of both directions, incl. mid-handshake, and injects bit flips, duplicated segments, truncation. Fault-free: received (type,payload) sequence equals sent, session ids equal, every wire byte equals an independent BIP324 encoder. Faulted v2: the k-th delivered message equals the k-th sent; v1: a delivered payload always matches the header checksum it arrived with.",
+            "Independent BIP324 encoder is built on the repo's ChaCha20/Poly1305/HKDF/EllSwift primitives (C49/C50 territory); single-threaded; message types restricted to printable bytes.",
+            COMP_TECH, "DESIGN.md §5 C32"),
+    "C33": ("compsim/headerssync", "exploration",
+            "Real HeadersSyncState with small per-run commitment period / redownload buffer against scripted peers (honest, low-work, chain switch between presync and redownload, altered headers, partial/empty/over-long batches) serving really mined chains with legal and illegal retargets; announcement-level oracle written from the statement (nothing released before the work proof, one continuous chain, each released header followed by a full buffer of commitment-matching headers unless the redownloaded chain reached minimum work, permitted transitions, bounded memory).",
+            "Component level only (block index / net_processing not in the loop); retarget interval 4-16 to keep test arithmetic in range; 'more than a full buffer' read as the implementation and its unit test do (header plus successors number more than the buffer size).",
+            COMP_TECH, "DESIGN.md §5 C33"),
+    "C35": ("compsim/orphanage", "exploration",
+            "Real TxOrphanage with small per-run limits, 2-8 peers, hand-built orphans of varied weight/input count; histories of AddTx/AddAnnouncer/EraseTx/AddChildrenToWorkSet/GetTxToReconsider with disconnects (EraseForPeer), blocks (EraseForBlock: include/conflict/unrelated) and flooding as faults; after every op the full announcement set is read back and compared with an announcement-level model: limits respected after each limiting step, orphans vanish only with their last announcement, disconnect/block remove exactly the affected entries, a peer within its own share loses nothing.",
+            "Three extra necessary conditions on eviction order (oldest-first per peer, from a worst peer, not more than needed) are taken from the class documentation, not from the statement; configurations with max latency score below the peer count excluded.",
+            COMP_TECH, "DESIGN.md §5 C35"),
+    "C37": ("compsim/addrman", "exploration",
+            "Real AddrMan (deterministic, consistency check after every call) under a simulated clock: Add/Good/Attempt/Connected/SetServices/collision resolution/Select/GetAddr histories over all network types, clock jumps, serialise->new instance (same and changed asmap), peers.dat dump/load with stored-data faults (truncate, byte flip, garbage, stray temp file) and crashes during the dump (simulated file layer: kill and power-loss images at seeded or all points: old file or new file, never a mix).",
+            "Times restricted to positive 32-bit values (documented domain of CAddress::nTime); capacity limits (65536/16384) unreachable in bounded runs, only Size == table count <= capacity is checked; power-loss model never makes an un-dir-synced rename durable.",
+            COMP_TECH + "; crash images via simulated file layer", "DESIGN.md §5 C37"),
+    "C60": ("compsim/banman", "exploration",
+            "Real BanMan on banlist.json under a simulated clock: Ban (address/subnet, relative/absolute/default durations), Unban, Discourage, ClearBanned, clock jumps exactly onto expiry +-1 s, clean restart, crash restart (no destructor), deleted/torn ban file; after every mutating op every reference entry is re-queried at its network/last/sibling/first-host-bit addresses and embedded forms against an own bit-wise prefix matcher; string and BIP155 round trips of every generated address/subnet are checked in passing.",
+            "Only the ban-store part of C60 has a clock/restart/fault in it; the pure round-trip clauses are exercised only as far as the ban store touches them. Discouragement checked only in the 'stays discouraged' direction within filter capacity. One known finding (fc-prefixed IPv6 subnets with CJDNS reachable) is listed in known_findings.txt.",
+            COMP_TECH, "DESIGN.md §5 C60"),
+})
+
 PURE = "pure function of its input: no schedule, clock, fault, peer or store in it (DESIGN.md §6)"
 NOT_APPLICABLE = {
     "C03": "CheckTransaction is a pure predicate on one transaction; " + PURE,
